@@ -57,8 +57,9 @@ PROPS = {
     "C05": Prop(MUT_SIDECARS, CHOICE + [f"{K}:Choice.bool_value", f"{K}:Symbol.bool_value", f"{K}:Symbol.set_value"],
                 ["drv_eval"], level="proof",
                 explanation="selection rule and member values proved against the statement's three-step rule"),
-    "C06": Prop(RENDER_SIDECARS + ["contracts.c_mut", "contracts.c_lemmas"],
+    "C06": Prop(RENDER_SIDECARS + ["contracts.c_mut", "contracts.c_lemmas", "contracts.c_kconfgen"],
                 [f"{K}:Symbol.str_value#*", f"{K}:Symbol.value_is_valid", f"{K}:Symbol.set_value", f"{K}:Kconfig._header_string",
+                 "kconfgen.core:get_json_values.<locals>.write_node",
                  "lemma:sv_num_wellformed", "lemma:sv_float_wellformed", "lemma:canary_sv_num_always_empty"],
                 ["drv_eval"], level="other", thorough=[f"{K}:Symbol.str_value#{c}" for c in NUM_CASES],
                 explanation="quick tier: accepted user values proved well-formed at the store (value_is_valid, set_value, float "
@@ -67,12 +68,15 @@ PROPS = {
                             "for an int / hex / float option (DEF_SV) is empty or well-formed for the type and lies inside the "
                             "active range; that the numeric branches of the real str_value compute exactly DEF_SV is proved in "
                             "the thorough tier only; generators bounded"),
-    "C07": Prop(RENDER_SIDECARS + ["contracts.c_deprecated"],
+    "C07": Prop(RENDER_SIDECARS + ["contracts.c_deprecated", "contracts.c_kconfgen"],
                 [f"{K}:Symbol.config_string", f"{K}:Kconfig._header_string", f"{K}:_escape",
-                 "esp_kconfiglib.deprecated:DeprecatedOptions._deprecated_config_string"],
+                 "esp_kconfiglib.deprecated:DeprecatedOptions._deprecated_config_string",
+                 "kconfgen.core:get_json_values.<locals>.write_node"],
                 ["drv_outputs"], level="other",
-                explanation="sdkconfig and header entries proved equal to one spec of (written?, type, value); CMake / JSON / "
-                            "aliases bounded"),
+                explanation="the sdkconfig entry, the C header entry, the JSON value and the sdkconfig line of a deprecated alias "
+                            "are each proved equal to one spec function of (written?, type, value[, inverted alias]) -- so "
+                            "these formats agree for all inputs by transitivity; CMake, auto.conf, the header's alias "
+                            "defines and whole-file agreement are bounded"),
     "C08": Prop(RENDER_SIDECARS, [f"{K}:Symbol.has_active_default_value"], ["drv_loadsave"], level="other",
                 explanation="marker predicate proved; load-side clauses bounded"),
     "C09": Prop([], [], ["drv_eval"], level="other", explanation="loop rejection and exception-freedom bounded"),
